@@ -113,15 +113,18 @@ CLAIMS = {
          "exactly out_len bytes (corollaries of the C02 / C06 refinements); the STACK FRAMES of the eleven hand-written Unix "
          "assembly functions are TRANSLATED (tools/gen_coq.py gen_asm_frames -> gen/GenAsmFrames.v: pushes, frame size, every "
          "rsp-based operand with its width, pops, callee-saved registers written) and proved to keep every stack access "
-         "inside [rsp, rbp) for every incoming alignment and to restore rbx, rbp, r12-r15. Harness (not a proof): every "
+         "inside [rsp, rbp) for every incoming alignment and to restore rbx, rbp, r12-r15; the ten Windows-GNU assembly functions "
+         "are translated too (pushes incl. rsi/rdi, xmm6-15 save slots and restores, body stores, registers written) and proved "
+         "to restore every callee-saved general and xmm register and to keep save slots and stores inside the frame. "
+         "Harness (not a proof): every "
          "kernel call of C05 and C-hasher histories with each buffer flush against a PROT_NONE page at the high and the low "
          "end, contiguous and separately allocated inputs, canaries around outputs, an assembly trampoline checking rbx, rbp, "
          "r12-r15 (and rsi, rdi, xmm6-15 for ms_abi), rsp and DF, ASan/UBSan builds in the thorough tier; Rust kernels with "
          "guard pages too. One genuine finding is recorded in known_findings.txt (assembly hash_many over-read).",
          "Partial: the loads/stores through the argument pointers executed inside assembly and intrinsics are not verified (no "
          "ISA semantics available): the model states footprints, the harness checks them on the sampled calls (each kernel "
-         "entered at all four legal stack alignments). The frame theorems cover the Unix assembly only and trust the translator's "
-         "reading of the operands; the Windows files are exercised by the harness only.",
+         "entered at all four legal stack alignments). The frame theorems trust the translator's reading of the operands (destination = first "
+         "operand, explicit size keywords) and cover the GNU-syntax files (Unix and Windows-GNU), not the MSVC .asm twins.",
          "Coq proof of index bounds and footprints on the models + guard-page / register-sentinel / sanitizer harness"),
  "C08": ("Coq theorems (Props/C08.v): in the split node of compress_subtree_wide the two halves write disjoint slot ranges of "
          "the cv_array; every interleaving of their write events (left-first, right-first, any concurrent schedule) leaves "
